@@ -71,28 +71,33 @@ func genPreset(r *gen.Rand, src source) *presetHdrs {
 	return h
 }
 
-func (r *rig) presetBefore(req *client.Request, p *probe) {
-	h := p.hdrs
-	if h == nil {
-		return
-	}
-	switch {
-	case h.level == "client":
-		cl2 := client.NewWithClient(r.fc) // same transport, its own defaults
-		h.apply(func(k, v string) { cl2.SetHeader(k, v) })
-		req.SetClient(cl2)
-	case h.when == "before":
+const (
+	whereRequest = iota
+	whereHook
+	whereClient
+)
+
+var whereName = [...]string{"on-the-request", "in-a-request-hook", "at-client-level"}
+
+// presetRequest applies the request-level headers that go before / after the value.
+func (r *rig) presetRequest(req *client.Request, p *probe, when string) {
+	if h := p.hdrs; h != nil && h.level == "request" && h.when == when {
 		h.apply(func(k, v string) { req.SetHeader(k, v) })
 	}
 }
 
-// fire sends the prepared request (headers "after the value" go on first).
-func (r *rig) fire(req *client.Request, p *probe, method string) (*client.Response, error) {
-	if h := p.hdrs; h != nil && h.level == "request" && h.when == "after" {
-		h.apply(func(k, v string) { req.SetHeader(k, v) })
+// genWhere draws where the application hands the value over.
+func genWhere(r *gen.Rand, pl plan) int {
+	w := r.PickW(6, 3, 2)
+	clientMode := pl.send != nil && (pl.send.mode == sendTwiceClient || pl.send.mode == sendClientThenReq)
+	switch {
+	case w == whereHook && clientMode:
+		return whereRequest // those sending modes are about the client level themselves
+	case w == whereClient:
+		plain := pl.send == nil || pl.send.mode == sendStruct
+		if !(plain && (pl.src == sQuery || pl.src == sCookie || pl.src == sHeader)) {
+			return whereRequest // the client has no place for form data or bodies
+		}
 	}
-	if method == "Get" {
-		return req.Get(rigURL)
-	}
-	return req.Post(rigURL)
+	return w
 }
